@@ -423,3 +423,39 @@ def stmt_end(toks, i):
             raise Undecided("statement end not found")
         j += 1
     raise Undecided("statement end not found")
+
+
+def strip_cfg_feature(text, feature="print"):
+    """R14: remove every `#[cfg(feature = "<feature>")]` attribute together with the element it guards (enum variant,
+    match arm, statement or item) -- the feature is off in the default build that runs."""
+    removed = 0
+    while True:
+        toks = tokenize(text)
+        hit = None
+        for i, t in enumerate(toks):
+            if t.text == "#" and toks[i + 1].text == "[" and toks[i + 2].text == "cfg" and toks[i + 3].text == "(" \
+                    and toks[i + 4].text == "feature" and toks[i + 5].text == "=" and toks[i + 6].text == '"%s"' % feature:
+                hit = i
+                break
+        if hit is None:
+            return text, removed
+        close = match_close(toks, hit + 1)
+        j = close + 1
+        # the guarded element ends at the first `,` or `;` at depth 0, or at a closing brace of the enclosing block
+        while j < len(toks):
+            tt = toks[j].text
+            if tt in OPEN:
+                j = match_close(toks, j) + 1
+                # a block-bodied match arm / item may end here without a comma
+                if toks[j - 1].text == "}" and j < len(toks) and toks[j].text not in (",", ";", ".", "?"):
+                    j -= 1
+                    break
+                continue
+            if tt in (",", ";"):
+                break
+            if tt in CLOSE:
+                j -= 1
+                break
+            j += 1
+        text = text[:toks[hit].start] + text[toks[j].end:]
+        removed += 1
